@@ -498,10 +498,11 @@ def lev : Str → Str → Nat
   | [] => fun b => b.length
   | x :: a => levInner x a.length (lev a)
 
-/-- sheet `s` is a possible misspelling of the supported name `key`: within distance 2, not itself a
+/-- sheet `s` is a possible misspelling of the supported name `key`: within distance 2 (`dist` is the edit
+    distance: `lev` in the theorems; the driver evaluates it with `levenshtein`, equal by `lev_correct`), not itself a
     spelling (in any letter case) of a supported sheet name, not prefixed with an underscore -/
-def isMisspelling (lower : Str → Str) (sup : List Str) (key s : Str) : Bool :=
-  decide (lev (lower s) key ≤ 2) && !sup.contains (lower s) && !startsWith s ['_']
+def isMisspelling (dist : Str → Str → Nat) (lower : Str → Str) (sup : List Str) (key s : Str) : Bool :=
+  decide (dist (lower s) key ≤ 2) && !sup.contains (lower s) && !startsWith s ['_']
 
 /-- a language label carries a valid code: it ends in `(code)` with `code` a registered subtag -/
 def hasValidCode (isTag : Str → Bool) (lang : Str) : Bool :=
@@ -601,18 +602,18 @@ def missingDue (sheet : String) (pairs : List (Str × Str)) : List W :=
 def choiceDue (rows : List (Nat × PRow)) : List W :=
   rows.filterMap fun nr => if (val1 nr.2 "list name").isSome && !keyIn nr.2 "label" then some (W.choiceNoLabel nr.1) else none
 
-def misspellDue (lower : Str → Str) (key : String) (names : List Str) : List W :=
-  match names.filter (isMisspelling lower supported key.toList) with
+def misspellDue (dist : Str → Str → Nat) (lower : Str → Str) (key : String) (names : List Str) : List W :=
+  match names.filter (isMisspelling dist lower supported key.toList) with
   | [] => []
   | cs => [W.misspell key.toList cs]
 
 /-- every warning due for a workbook (as a multiset; the order is not part of the property) -/
-def dueOn (lower : Str → Str) (wb : WB) (v : View) : List W :=
+def dueOn (dist : Str → Str → Nat) (lower : Str → Str) (wb : WB) (v : View) : List W :=
   (if wb.settingsRows > 0 then
      (if wb.settingsHeader.contains "id_string".toList && wb.settingsHeader.contains "form_id".toList then [W.dupId] else [])
-   else misspellDue lower "settings" wb.sheetNames) ++
+   else misspellDue dist lower "settings" wb.sheetNames) ++
   (if wb.choices.isEmpty then [] else choiceHeaderWarnings v.chHeaders ++ choiceDue (numberFrom 2 v.chRows)) ++
-  (if wb.hasEntities then [] else misspellDue lower "entities" wb.sheetNames) ++
+  (if wb.hasEntities then [] else misspellDue dist lower "entities" wb.sheetNames) ++
   missingDue "survey" (trPairs surveyTrTable v.svHeaders) ++
   missingDue "choices" (trPairs choicesTrTable v.chHeaders) ++
   rowsDue 2 v.svRows ++
@@ -620,10 +621,10 @@ def dueOn (lower : Str → Str) (wb : WB) (v : View) : List W :=
       (translated (trPairs surveyTrTable v.svHeaders) || translated (trPairs choicesTrTable v.chHeaders))
    then [W.orOther] else [])
 
-def workbookDue (lower : Str → Str) (wb : WB) : Except Stop (List W) :=
+def workbookDue (dist : Str → Str → Nat) (lower : Str → Str) (wb : WB) : Except Stop (List W) :=
   match view wb with
   | .error e => .error e
-  | .ok v => .ok (dueOn lower wb v)
+  | .ok v => .ok (dueOn dist lower wb v)
 
 def ianaDueW (isTag : Str → Bool) (langs : List Str) : List W :=
   match langs.filter (ianaDue isTag) with
